@@ -25,12 +25,17 @@ REFERENCE_FORMULATION_DICT = {
 }
 
 
+def _escape_braces(text):
+    # curly braces have no special meaning in YARRRML, in RML templates they must be escaped
+    return text.replace('{', '\\{').replace('}', '\\}')
+
+
 def _template_to_rml(yarrrml_template):
     rml_template = ''
 
     ref_ini_pos = yarrrml_template.find('$(')
     while ref_ini_pos != -1:
-        rml_template += f'{yarrrml_template[:ref_ini_pos]}{{'
+        rml_template += f'{_escape_braces(yarrrml_template[:ref_ini_pos])}{{'
         yarrrml_template = f'{yarrrml_template[ref_ini_pos+2:]}'
 
         ref_end_pos = yarrrml_template.find(')')
@@ -40,7 +45,7 @@ def _template_to_rml(yarrrml_template):
         ref_ini_pos = yarrrml_template.find('$(')
 
     # final constant string
-    rml_template += yarrrml_template
+    rml_template += _escape_braces(yarrrml_template)
 
     return rml_template
 
